@@ -37,45 +37,55 @@ example : process none ⟨none, none, 80, ofString "/b/x", none⟩ (ofString "/b
     [(ofString "/A/$1", .nomatch), (ofString "/B/$1", .matched [some (0, 4), some (3, 4)]),
      (ofString "/C/$1", .matched [some (0, 4), some (1, 4)])] = .finished 1 (ofString "/B/x") := by decide
 
+/-- a PCRE2 error on a rule reached before any match is an error of the whole lookup (the
+    request fails; no later rule is tried) -/
+theorem c20_first_match_error (cond : Option Caps) (url : UrlParts) (subject : Bytes)
+    (pre post : List (Bytes × MatchRes)) (tmpl : Bytes) (hpre : ∀ r ∈ pre, r.2 = .nomatch) :
+    process cond url subject (pre ++ (tmpl, .error) :: post) = .error := by
+  unfold process
+  rw [processFrom_skip cond url subject pre _ 0 hpre]
+  simp [processFrom]
+
+/-- url.redirect: the Location header is the expansion of the first matching rule's template, the
+    status is url.redirect-code if configured, else 301 for GET/HEAD or HTTP/1.0 requests and 308
+    otherwise; no matching rule (or a blank template) means no redirect. -/
+theorem c20_redirect (code : Nat) (getOrHead http10 : Bool) (cond : Option Caps) (url : UrlParts)
+    (pre post : List (Bytes × MatchRes)) (tmpl : Bytes) (ov : OVec)
+    (hpre : ∀ r ∈ pre, r.2 = .nomatch) (ht : tmpl ≠ []) :
+    redirect code getOrHead http10 cond url (pre ++ (tmpl, .matched ov) :: post) =
+      .ok (some (if code ≠ 0 then code else if getOrHead || http10 then 301 else 308,
+                 subst { rule := { subject := url.path, ovec := ov }, cond := cond, url := url } tmpl)) ∧
+    redirect code getOrHead http10 cond url pre = .ok none := by
+  have h := c20_first_match cond url url.path pre post tmpl ov hpre
+  have hne : tmpl.isEmpty = false := by cases tmpl <;> simp_all
+  constructor
+  · simp only [redirect, h.1, hne, Bool.false_eq_true, if_false, redirectStatus]
+  · simp only [redirect, h.2]
+
+example : (match redirect 0 false false none
+                   ⟨some (ofString "http"), some (ofString "h"), 80, ofString "/old/x", none⟩
+                   [(ofString "${url.scheme}://${url.authority}/new/$1", .matched [some (0, 6), some (5, 6)])] with
+           | .ok r => r
+           | .error _ => none) = some (308, ofString "http://h/new/x") := by decide
+
 /-! ## modifiers -/
 
-/-- the documented modifiers of `${...}` and the recoding each one is documented to select -/
-def documentedModifiers : List (Bytes × Nat) :=
-  [(ofString "esc:", Extracted.burlEncodeAll), (ofString "escape:", Extracted.burlEncodeAll),
-   (ofString "escnde:", Extracted.burlEncodeNde), (ofString "escpsnde:", Extracted.burlEncodePsnde),
-   (ofString "noesc:", Extracted.burlEncodeNone), (ofString "noescape:", Extracted.burlEncodeNone),
-   (ofString "tolower:", Extracted.burlToLower), (ofString "toupper:", Extracted.burlToUpper),
-   (ofString "encb64u:", Extracted.burlEncodeB64u), (ofString "decb64u:", Extracted.burlDecodeB64u)]
-
-/-- pcre_keyvalue_buffer_subst_ext(): every documented modifier name, at any position of the
-    modifier list of a `${...}` / `%{...}`, selects exactly the recoding it is named after (and
-    consumes exactly its own name).  The flags OR-ed in by the model are the ones *extracted from
-    the C function*, so a wrong name -> flag mapping in keyvalue.c makes this unprovable. -/
+/-- pcre_keyvalue_buffer_subst_ext(): every documented modifier name (esc, escape, escnde, escpsnde,
+    noesc, noescape, tolower, toupper, encb64u, decb64u — `documentedModifiers` pairs each name with
+    the burl.h recoding it is documented to select), at any position of the modifier list of a
+    `${...}` / `%{...}`, selects exactly that recoding and consumes exactly its own name.  The flags
+    OR-ed in by the model are the ones *extracted from the C function*, so a wrong name -> flag
+    mapping in keyvalue.c makes this unprovable. -/
 theorem c20_modifiers_as_named : ∀ m ∈ documentedModifiers,
     ∀ (env : Env) (sigil : UInt8) (out p : Bytes) (pos fl : Nat),
       extGo env sigil out (m.1 ++ p) 0 pos fl = extGo env sigil out p 0 (pos + m.1.length) (fl ||| m.2) := by
   intro m hm env sigil out p pos fl
-  simp only [documentedModifiers, List.mem_cons, List.not_mem_nil, or_false] at hm
-  have e1 : ofString "esc:" = [101, 115, 99, 58] := by decide
-  have e2 : ofString "escape:" = [101, 115, 99, 97, 112, 101, 58] := by decide
-  have e3 : ofString "escnde:" = [101, 115, 99, 110, 100, 101, 58] := by decide
-  have e4 : ofString "escpsnde:" = [101, 115, 99, 112, 115, 110, 100, 101, 58] := by decide
-  have e5 : ofString "noesc:" = [110, 111, 101, 115, 99, 58] := by decide
-  have e6 : ofString "noescape:" = [110, 111, 101, 115, 99, 97, 112, 101, 58] := by decide
-  have e7 : ofString "tolower:" = [116, 111, 108, 111, 119, 101, 114, 58] := by decide
-  have e8 : ofString "toupper:" = [116, 111, 117, 112, 112, 101, 114, 58] := by decide
-  have e9 : ofString "encb64u:" = [101, 110, 99, 98, 54, 52, 117, 58] := by decide
-  have e10 : ofString "decb64u:" = [100, 101, 99, 98, 54, 52, 117, 58] := by decide
-  rcases hm with h | h | h | h | h | h | h | h | h | h <;> subst h <;>
-    simp only [e1, e2, e3, e4, e5, e6, e7, e8, e9, e10] <;>
-    simp [extGo, startsWith, sEsc, sApe, sNde, sPsnde, sNo, sEscC, sEscapeC, sTo, sLowerC, sUpperC,
-          sUrlDot, sQsa, sEncB64, sDecB64, ofString, isDigit, rbrace, colon,
-          Extracted.kvMod_esc, Extracted.kvMod_escape, Extracted.kvMod_escnde, Extracted.kvMod_escpsnde,
-          Extracted.kvMod_noesc, Extracted.kvMod_noescape, Extracted.kvMod_tolower, Extracted.kvMod_toupper,
-          Extracted.kvMod_encb64u, Extracted.kvMod_decb64u,
-          Extracted.burlEncodeAll, Extracted.burlEncodeNde, Extracted.burlEncodePsnde,
-          Extracted.burlEncodeNone, Extracted.burlToLower, Extracted.burlToUpper,
-          Extracted.burlEncodeB64u, Extracted.burlDecodeB64u]
+  simp only [documentedModifiers, List.mem_map] at hm
+  obtain ⟨md, _, rfl⟩ := hm
+  exact extGo_modifier md env sigil out p pos fl
+
+example : (ofString "toupper:", Extracted.burlToUpper) ∈ documentedModifiers ∧
+    (ofString "esc:", Extracted.burlEncodeAll) ∈ documentedModifiers := by decide
 
 /-- `${toupper:noesc:1}` upper-cases the capture, `${tolower:noesc:1}` lower-cases it -/
 example : subst ⟨⟨ofString "/Foo", [some (0, 4), some (1, 4)]⟩, none, ⟨none, none, 80, ofString "/Foo", none⟩⟩
@@ -136,6 +146,33 @@ theorem c20_b64u_roundtrip (x : Bytes) : b64uDec (b64uEnc x) = x := by
 example : b64uEnc (ofString "hello") = ofString "aGVsbG8" := by decide
 example : b64uDec (ofString "aGVs!bG8") = [] := by decide
 
+/-! ## the reference interpreter -/
+
+/-- pcre_keyvalue_buffer_subst() IS the reference interpreter on every well-formed template:
+    for every list of tokens — literal text, `$$` / `%%`, `$N` / `%N`, and `${…}` / `%{…}` with any
+    sequence of documented modifiers in front of a capture number, `url.scheme|authority|port|path|
+    query` or `qsa` — expanding the rendered template gives exactly what the token-by-token reference
+    semantics (`Tok.interp`: captures, URL parts, query-string append, recoding selected by the
+    modifiers) gives. -/
+theorem c20_template_interpreter (env : Env) (toks : List Tok) (hw : ∀ tk ∈ toks, tk.WF) :
+    subst env (toks.flatMap Tok.render) = interpret env toks [] := by
+  have := substGo_interpret env toks hw [] []
+  simpa [subst, substGo] using this
+
+example : [Tok.lit (ofString "/n/"), .ext dollar [.tolower, .noesc] (.cap 49), .sigil pct, .raw pct 49,
+           .ext dollar [.esc] .path, .ext dollar [] .qsa].flatMap Tok.render
+    = ofString "/n/${tolower:noesc:1}%%%1${esc:url.path}${qsa}" := by decide
+example : ∀ tk ∈ [Tok.lit (ofString "/n/"), .ext dollar [.tolower, .noesc] (.cap 49), .sigil pct, .raw pct 49,
+                  .ext dollar [.esc] .path, .ext dollar [] .qsa], tk.WF := by
+  intro tk h
+  simp only [List.mem_cons, List.not_mem_nil, or_false] at h
+  rcases h with h | h | h | h | h | h <;> subst h <;> simp [Tok.WF, Item.WF, isSigil, dollar, pct, isDigit, ofString]
+example : interpret ⟨⟨ofString "/Foo/x", [some (0, 6), some (1, 4)]⟩, some ⟨ofString "www.h", [some (0, 5), some (0, 3)]⟩,
+                     ⟨none, none, 80, ofString "/Foo/x?a=1", some (ofString "a=1")⟩⟩
+    [Tok.lit (ofString "/n/"), .ext dollar [.tolower, .noesc] (.cap 49), .sigil pct, .raw pct 49,
+     .ext dollar [.esc] .path, .ext dollar [] .qsa] []
+    = ofString "/n/foo%www%2FFoo%2Fx?a=1" := by decide
+
 /-! ## literals -/
 
 /-- template text without `$` / `%` is copied verbatim (anywhere in a template) -/
@@ -181,7 +218,7 @@ theorem c20_captures (env : Env) (d : UInt8) (t out : Bytes) (hd : isDigit d = t
     simp [hb, hd, capAppend, burlAppend_zero, substGo_skip, dollar]
   · conv => lhs; unfold substGo
     simp only [dollar, pct] at *
-    simp [hb, hd, capAppend, substGo_skip, dollar, pct]
+    simp [hb, hd, capAppend, substGo_skip, dollar]
     cases env.cond with
     | none => simp
     | some c => simp [burlAppend_zero]
